@@ -560,13 +560,20 @@ def _local_init(ctx: Ctx, c: Collector) -> None:
     else:
         gt = T.guard_term(rj[0].guards[-1])
         ver = call(T.glob(EXTRACT), ("await", sends[0].term)) if sends else None
-        okg = gt[0] == "and" and len(gt[1]) == 2 and T.contains(gt, ("cmp", "<=", ("bag", (("elem", T.const(3), (), ()),), "list"), ver))
-        if okg:
-            flag = [x for x in gt[1] if not T.contains(x, ver)][0]
-            try:
-                okg = boolfn.eval_leaves(flag, {comp: False}) is True and boolfn.eval_leaves(flag, {comp: True}) is False
-            except boolfn.NotBoolean:
-                okg = False
+        # by cases over (compliant?, reported version >= [3]?): some rejection fires exactly for (no, yes) -- however the
+        # test is split over nested ifs, flags or a helper
+        V3 = ("cmp", "<=", ("bag", (("elem", T.const(3), (), ()),), "list"), ver)
+        v3_leaf, v3_pol = boolfn.canon_leaf(V3)
+        okg = True
+        try:
+            for cv in (True, False):
+                for vv in (True, False):
+                    a = {comp: cv, v3_leaf: (vv == v3_pol)}
+                    fired = any(boolfn.guards_hold_leaves(r0.guards, a) for r0 in rj)
+                    if fired != ((not cv) and vv):
+                        okg = False
+        except (boolfn.NotBoolean, KeyError):
+            okg = False
         if not okg:
             pr.append(f"the rejection test {T.show(gt)[:120]} is not `non-compliant and version >= [3]`")
     c.add("local", LOCAL_INIT, "time_resolution dropped iff non-compliant; non-compliant v3 rejected", VIOLATED if pr else DISCHARGED, "; ".join(pr), fi.loc)
